@@ -734,6 +734,117 @@ def leg_frontend_threads(ns, res, spec):
         shutil.rmtree(d, ignore_errors=True)
 
 
+def leg_csv_history(ns, res, spec):
+    """query_csv histories in ONE process where what a query text denotes depends on its surroundings - the same relative join table name next to input
+    files in different directories, a changed working directory, a re-pointed ~/.rbql_table_names, different dialects / encodings / header flags from one
+    call to the next.  Every result must equal the one a forked child that ran only that call produces."""
+    import json
+    import shutil
+    import tempfile
+    rng = random.Random(spec['seed'] * 2750159 + spec['i'])
+    d = tempfile.mkdtemp(prefix='rv-C16-')
+    old_cwd, old_home = os.getcwd(), os.environ.get('HOME')
+    try:
+        home = os.path.join(d, 'home')
+        os.mkdir(home)
+        os.environ['HOME'] = home
+        regions = {'europe': ['Paris', 'Rome', 'Oslo'], 'asia': ['Tokyo', 'Seoul'], 'africa': ['Cairo', 'Accra', 'Lagos', 'Tunis']}
+        for reg, cities in regions.items():
+            os.mkdir(os.path.join(d, reg))
+            with open(os.path.join(d, reg, 'in.csv'), 'w', newline='') as f:
+                f.write('id,who\n' + ''.join('k%d,%s%d\n' % (i + 1, reg[:2], i) for i in range(4)))
+            with open(os.path.join(d, reg, 'lookup.csv'), 'w', newline='') as f:
+                f.write('key,city\n' + ''.join('k%d,%s\n' % (i + 1, c) for i, c in enumerate(cities)))
+            with open(os.path.join(d, reg, 'semi.csv'), 'w', newline='', encoding='latin-1') as f:
+                f.write('id;who\n' + ''.join('k%d;"%s;\xe9"\n' % (i + 1, reg) for i in range(3)))
+        os.mkdir(os.path.join(d, 'elsewhere'))
+        with open(os.path.join(d, 'elsewhere', 'named.csv'), 'w', newline='') as f:
+            f.write('key,city\nk1,Named1\nk3,Named3\n')
+        with open(os.path.join(d, 'elsewhere', 'named2.csv'), 'w', newline='') as f:
+            f.write('key,city\nk2,Other2\n')
+        calls = []
+        for reg in regions:
+            inp = os.path.join(d, reg, 'in.csv')
+            calls += [
+                {'q': 'select a1, b2 left join lookup.csv on a1 == b1', 'inp': inp, 'dlm': ',', 'pol': 'quoted', 'enc': 'utf-8', 'hdr': True, 'cwd': d},
+                {'q': 'select a.who, b.city join lookup.csv on a.id == b.key', 'inp': inp, 'dlm': ',', 'pol': 'quoted', 'enc': 'utf-8', 'hdr': True, 'cwd': os.path.join(d, 'elsewhere')},
+                {'q': 'select a1, b2 join lookup.csv on a1 == b1', 'inp': inp, 'dlm': ',', 'pol': 'quoted', 'enc': 'utf-8', 'hdr': False, 'cwd': d},
+                {'q': 'select a1, b2 left join mytable on a1 == b1', 'inp': inp, 'dlm': ',', 'pol': 'quoted', 'enc': 'utf-8', 'hdr': True, 'cwd': d, 'names': 'named.csv'},
+                {'q': 'select a1, b2 left join mytable on a1 == b1', 'inp': inp, 'dlm': ',', 'pol': 'quoted', 'enc': 'utf-8', 'hdr': True, 'cwd': d, 'names': 'named2.csv'},
+                {'q': 'select a2, a1', 'inp': os.path.join(d, reg, 'semi.csv'), 'dlm': ';', 'pol': 'quoted', 'enc': 'latin-1', 'hdr': True, 'cwd': d},
+                {'q': 'select a1, b2 join nosuch.csv on a1 == b1', 'inp': inp, 'dlm': ',', 'pol': 'quoted', 'enc': 'utf-8', 'hdr': True, 'cwd': d},
+                {'q': 'select a1, int(a2)', 'inp': inp, 'dlm': ',', 'pol': 'simple', 'enc': 'utf-8', 'hdr': True, 'cwd': d},
+            ]
+        # a relative input path: the working directory decides which file it is
+        for reg in regions:
+            calls.append({'q': 'select a2, b.city join lookup.csv on a1 == b1', 'inp': 'in.csv', 'dlm': ',', 'pol': 'quoted', 'enc': 'utf-8', 'hdr': True, 'cwd': os.path.join(d, reg)})
+
+        def run(c, tag):
+            os.chdir(c['cwd'])
+            names_file = os.path.join(home, '.rbql_table_names')
+            if c.get('names'):
+                with open(names_file, 'w') as f:
+                    f.write('mytable\t%s\n' % os.path.join(d, 'elsewhere', c['names']))
+            elif os.path.exists(names_file):
+                os.unlink(names_file)
+            outp = os.path.join(d, 'out_%s.csv' % tag)
+            if os.path.exists(outp):
+                os.unlink(outp)
+            warns = []
+            try:
+                ns.rbql.query_csv(c['q'], c['inp'], c['dlm'], c['pol'], outp, c['dlm'], c['pol'], c['enc'], warns, c['hdr'])
+                with open(outp, 'rb') as f:
+                    return {'error': None, 'out': f.read().hex(), 'warnings': warns}
+            except Exception as e:
+                return {'error': util.error_class(e) if 'Rbql' in type(e).__name__ or isinstance(e, SyntaxError) else 'other:' + type(e).__name__, 'out': None, 'warnings': None}
+            finally:
+                os.chdir(d)
+
+        solo = []
+        for ci, c in enumerate(calls):
+            r, w = os.pipe()
+            pid = os.fork()
+            if pid == 0:
+                code = 0
+                try:
+                    os.close(r)
+                    with os.fdopen(w, 'w') as f:
+                        f.write(json.dumps(run(c, 'solo%d' % ci)))
+                except BaseException:
+                    code = 1
+                os._exit(code)
+            os.close(w)
+            with os.fdopen(r) as f:
+                data = f.read()
+            os.waitpid(pid, 0)
+            solo.append(json.loads(data) if data else None)
+        res.count('csv_history_solo_results_from_forked_children', sum(1 for x in solo if x is not None))
+        res.count('csv_history_solo_failing', sum(1 for x in solo if x and x['error']))
+        for h in range(spec['n']):
+            order = [rng.randrange(len(calls)) for _ in range(rng.randrange(3, 9))]
+            hist = []
+            for ci in order:
+                got = run(calls[ci], 'hist')
+                hist.append(ci)
+                res.evaluations += 1
+                res.count('csv_history_runs')
+                res.nontrivial('csv-hist', tuple(hist))
+                if solo[ci] is not None and got != solo[ci]:
+                    show = lambda x: dict(x, out=bytes.fromhex(x['out']).decode('latin-1')[:200] if x.get('out') else None)
+                    res.violation('py:csv-result-depends-on-history', '[py/query_csv] %r over %s (cwd %s, header %s) after the history %r -> %r ; alone in a forked child -> %r' % (
+                        calls[ci]['q'], calls[ci]['inp'].replace(d, '<tmp>'), calls[ci]['cwd'].replace(d, '<tmp>'), calls[ci]['hdr'], [(calls[j]['q'], calls[j]['inp'].replace(d, '<tmp>')) for j in hist[:-1]][-3:], show(got), show(solo[ci])),
+                        {'leg': 'csv-history', 'history': [dict(calls[j], inp=calls[j]['inp'].replace(d, '<tmp>'), cwd=calls[j]['cwd'].replace(d, '<tmp>')) for j in hist]})
+                    break
+        res.sample({'leg': 'csv-history', 'calls': len(calls), 'histories': spec['n']})
+    finally:
+        os.chdir(old_cwd)
+        if old_home is None:
+            os.environ.pop('HOME', None)
+        else:
+            os.environ['HOME'] = old_home
+        shutil.rmtree(d, ignore_errors=True)
+
+
 def leg_preempt(ns, res, spec):
     """8 threads x N queries with a tiny switch interval and seeded sleep(0) injected between statements of the engine and the generated loop."""
     R = spec['R']
@@ -807,6 +918,7 @@ def plan(tier, seed):
         specs.append({'kind': 'sqlite-history'})
         specs += [{'kind': 'pandas-history', 'i': i, 'n': 40} for i in range(2)]
         specs += [{'kind': 'frontend-threads', 'n': 25} for i in range(2)]
+        specs += [{'kind': 'csv-history', 'i': i, 'n': 60} for i in range(2)]
     else:
         solo4 = fresh_baselines(4)
         kinds = ['get_record', 'write', 'finish']
@@ -827,20 +939,21 @@ def plan(tier, seed):
         specs.append({'kind': 'sqlite-history'})
         specs += [{'kind': 'pandas-history', 'i': i, 'n': 300} for i in range(6)]
         specs += [{'kind': 'frontend-threads', 'n': 150} for i in range(8)]
+        specs += [{'kind': 'csv-history', 'i': i, 'n': 600} for i in range(6)]
     return specs
 
 
 def run_shard(spec, res):
     ns = env.import_rbql()
-    {'history': leg_history, 'interleave': leg_interleave, 'preempt': leg_preempt, 'generated': leg_generated, 'js-history': leg_js_history, 'sqlite-history': leg_sqlite_history, 'pandas-history': leg_pandas_history, 'frontend-threads': leg_frontend_threads}[spec['kind']](ns, res, spec)
+    {'history': leg_history, 'interleave': leg_interleave, 'preempt': leg_preempt, 'generated': leg_generated, 'js-history': leg_js_history, 'sqlite-history': leg_sqlite_history, 'pandas-history': leg_pandas_history, 'frontend-threads': leg_frontend_threads, 'csv-history': leg_csv_history}[spec['kind']](ns, res, spec)
 
 
 def summarize(tier, seed, m):
     return {
-        'rule': '%d scenarios (plain select, like, UNNEST, ORDER BY, DISTINCT COUNT, GROUP BY with all nine aggregates, JOIN, UPDATE with NU, TOP, syntax error, parsing error, runtime error at record 2, aggregate misuse, double UNNEST, and two pairs of identical query texts over differently ordered headers); solo results from one fresh interpreter per scenario; history: every sequence of length <= 2 plus random sequences of length 3..6 in one process; interleaving: every unordered pair of scenarios (incl. a scenario with itself) in two real threads under the cooperative scheduler, ALL interleavings of the get_record / write / finish steps enumerated by stateless DFS (%s); preemption stress with sys.monitoring LINE yield injection; generated queries (C01-C05 generators, failing variants, and header twins: the same query text over the same data with the columns in another order) whose solo results come from forked children of a query-free interpreter, together with a state-reading query (its result is interpreter-wide state: int/str digit limit, recursion limit, switch interval, decimal precision, locale, encodings, buffer size, TZ, csv field limit) and nine stress queries (5000-digit integers written before a failure, 200000-character cells, 3000-column records, float overflow), then run in three shuffled orders through one interpreter (probe sink and CSV writer sink) and pairwise in two threads under seeded random schedules; the JS port sequentially: generated language-neutral queries alone in a fresh node process each vs three shuffled histories (with failing queries interspersed) in one node process; the sqlite front-end with one connection shared by every ordered pair of 15 queries (utf-8 / latin-1 output, 7 of them failing) vs a fresh connection each, and the caller\'s connection settings before / after; the pandas front-end with ONE DataFrame object (and one join frame) serving histories of 3-6 queries while its owner re-labels, permutes, renames, adds, drops and overwrites columns in place between them, each result compared with the same query over a newly built equal frame in a forked child that ran no query; the front-ends side by side: 8 threads running query_csv (five dialects / encodings, JOIN files, failing queries), query_pandas_dataframe and query_sqlite_to_csv under statement-level yield injection in the engine, CSV reader / writer, splitter and adapters, each result compared with a forked child that ran only that task. distinct_nontrivial = distinct step traces realised + distinct history sequences.' % (
+        'rule': '%d scenarios (plain select, like, UNNEST, ORDER BY, DISTINCT COUNT, GROUP BY with all nine aggregates, JOIN, UPDATE with NU, TOP, syntax error, parsing error, runtime error at record 2, aggregate misuse, double UNNEST, and two pairs of identical query texts over differently ordered headers); solo results from one fresh interpreter per scenario; history: every sequence of length <= 2 plus random sequences of length 3..6 in one process; interleaving: every unordered pair of scenarios (incl. a scenario with itself) in two real threads under the cooperative scheduler, ALL interleavings of the get_record / write / finish steps enumerated by stateless DFS (%s); preemption stress with sys.monitoring LINE yield injection; generated queries (C01-C05 generators, failing variants, and header twins: the same query text over the same data with the columns in another order) whose solo results come from forked children of a query-free interpreter, together with a state-reading query (its result is interpreter-wide state: int/str digit limit, recursion limit, switch interval, decimal precision, locale, encodings, buffer size, TZ, csv field limit) and nine stress queries (5000-digit integers written before a failure, 200000-character cells, 3000-column records, float overflow), then run in three shuffled orders through one interpreter (probe sink and CSV writer sink) and pairwise in two threads under seeded random schedules; the JS port sequentially: generated language-neutral queries alone in a fresh node process each vs three shuffled histories (with failing queries interspersed) in one node process; the sqlite front-end with one connection shared by every ordered pair of 15 queries (utf-8 / latin-1 output, 7 of them failing) vs a fresh connection each, and the caller\'s connection settings before / after; the pandas front-end with ONE DataFrame object (and one join frame) serving histories of 3-6 queries while its owner re-labels, permutes, renames, adds, drops and overwrites columns in place between them, each result compared with the same query over a newly built equal frame in a forked child that ran no query; query_csv histories of 3-8 calls where the meaning of a query text depends on its surroundings (the same relative join table name next to inputs in three directories, a relative input path under a changing working directory, a ~/.rbql_table_names entry re-pointed between calls, dialect / encoding / header flag changing from call to call, failing calls in between), against forked-child baselines; the front-ends side by side: 8 threads running query_csv (five dialects / encodings, JOIN files, failing queries), query_pandas_dataframe and query_sqlite_to_csv under statement-level yield injection in the engine, CSV reader / writer, splitter and adapters, each result compared with a forked child that ran only that task. distinct_nontrivial = distinct step traces realised + distinct history sequences.' % (
             len(SCENARIOS), '2-record tables' if tier == 'quick' else '2- and 3-record tables for all pairs (3-record pairs capped at 20000 schedules), 4-record tables for 6 selected pairs'),
         'exhaustive': m['counters'].get('pairs_truncated', 0) == 0,
-        'required': ['environment_reader_and_stressor_cases', 'frontend_thread_runs', 'frontend_solo_results_from_forked_children', 'frontend_solo_failing', 'frontend_injected_yields', 'pandas_history_runs', 'pandas_history_solo_results_from_forked_children', 'pandas_history_solo_failing', 'pandas_history_op:relabel', 'pandas_history_op:add', 'sqlite_history_runs', 'sqlite_history_solo_failing', 'js_solo_results_from_fresh_node_processes', 'js_history_runs', 'generated_solo_results', 'generated_header_twins', 'generated_history_runs', 'generated_interleaved_schedules', 'generated_interleaved_handoffs', 'schedules', 'pairs_enumerated_completely', 'handoffs', 'history_runs', 'preemption_runs', 'line_events_in_main_loop', 'injected_yields'],
+        'required': ['csv_history_runs', 'csv_history_solo_results_from_forked_children', 'csv_history_solo_failing', 'environment_reader_and_stressor_cases', 'frontend_thread_runs', 'frontend_solo_results_from_forked_children', 'frontend_solo_failing', 'frontend_injected_yields', 'pandas_history_runs', 'pandas_history_solo_results_from_forked_children', 'pandas_history_solo_failing', 'pandas_history_op:relabel', 'pandas_history_op:add', 'sqlite_history_runs', 'sqlite_history_solo_failing', 'js_solo_results_from_fresh_node_processes', 'js_history_runs', 'generated_solo_results', 'generated_header_twins', 'generated_history_runs', 'generated_interleaved_schedules', 'generated_interleaved_handoffs', 'schedules', 'pairs_enumerated_completely', 'handoffs', 'history_runs', 'preemption_runs', 'line_events_in_main_loop', 'injected_yields'],
         'assumptions': ['exhaustive at the granularity of iterator / writer calls (what the statement names); statement-level preemption is sampled; bytecode-level is not explored', 'a change of module-level state alone is not a refutation (advisory notes only)'],
     }
 
